@@ -706,4 +706,58 @@ Section Regs.
     induction l as [|s r IH]; [apply regs_ok_ret|]. cbn [RenderStack.rrender_all flat_map].
     apply regs_ok_emitr; [apply rrender_regs|exact IH].
   Qed.
+
+  (* every package of [rpkgs] comes from a leaf *)
+  Lemma rpkgs_forall : forall (P : bytes -> Prop),
+    (forall l p, In p (leaf_pkgs l) -> P p) ->
+    (forall a p, In p (raw_v_pkgs a) -> P p) ->
+    (forall a p, In p (raw_t_pkgs a) -> P p) ->
+    forall s p, In p (rpkgs s) -> P p.
+  Proof.
+    intros P Hl Hv Ht.
+    induction s as [|b|f args IH|f args IH|a|v|d a|l IH|x IH|l] using (rsnip_ind' leaf raw);
+      intros p Hp; try (destruct Hp; fail).
+    - change (rpkgs (RT leaf raw f args)) with
+        (flat_map (fun t => match t with
+                            | Hole n _ => match lookup n (map (fun p => (fst p, (fun v => if risnil_of v then [] else rpkgs v) (snd p))) args) with
+                                          | Some l => l | None => [] end
+                            | Lit _ => []
+                            end) (tokenize (sc_view (trim_nl f)))) in Hp.
+      apply in_flat_map in Hp. destruct Hp as (t & _ & Hp). destruct t as [c|n ap]; [destruct Hp|].
+      rewrite (lookup_map (fun v => if risnil_of v then [] else rpkgs v)) in Hp. destruct (lookup n args) as [v|] eqn:E; cbn [option_map] in Hp; [|destruct Hp].
+      pose proof (lookup_Forall (fun v => forall p, In p (rpkgs v) -> P p) n args v IH E) as Hv'.
+      destruct (risnil_of v); [destruct Hp|exact (Hv' p Hp)].
+    - change (rpkgs (RSprintf leaf raw f args)) with
+        (verb_pkgs (stokenize (sc_view f))
+           (map (fun a => match a with
+                          | RRaw _ _ x => (raw_v_pkgs x, raw_t_pkgs x)
+                          | _ => (rpkgs a, rpkgs a)
+                          end) args)) in Hp.
+      revert Hp. generalize (stokenize (sc_view f)). intros ts. revert ts.
+      induction IH as [|x r Hx _ IHr]; intros ts Hp.
+      + cbn [map] in Hp. induction ts as [|t ts IHt]; [destruct Hp|]. cbn [verb_pkgs] in Hp.
+        destruct t; try (destruct Hp; fail); apply IHt, Hp.
+      + cbn [map] in Hp. revert Hp. induction ts as [|t ts IHt]; intros Hp; [destruct Hp|]. cbn [verb_pkgs] in Hp.
+        destruct t as [c| | | |c]; try (apply IHt, Hp); try (destruct Hp; fail).
+        * apply in_app_iff in Hp. destruct Hp as [Hp|Hp]; [|exact (IHr ts Hp)].
+          destruct x; cbn [fst] in Hp; try exact (Hx p Hp). exact (Hv _ _ Hp).
+        * apply in_app_iff in Hp. destruct Hp as [Hp|Hp]; [|exact (IHr ts Hp)].
+          destruct x; cbn [snd] in Hp; try exact (Hx p Hp). exact (Ht _ _ Hp).
+    - change (rpkgs (RSnippets leaf raw l)) with (flat_map (fun c => if risnil_of c then [] else rpkgs c) l) in Hp.
+      apply in_flat_map in Hp. destruct Hp as (c & Hc & Hp). rewrite Forall_forall in IH.
+      destruct (risnil_of c); [destruct Hp|exact (IH c Hc p Hp)].
+    - change (rpkgs (RFragments leaf raw x)) with (if risnil_of x then [] else rpkgs x) in Hp.
+      destruct (risnil_of x); [destruct Hp|exact (IH p Hp)].
+    - exact (Hl _ _ Hp).
+  Qed.
+
+  Lemma rpkgs_render_forall : forall (P : bytes -> Prop),
+    (forall l p, In p (leaf_pkgs l) -> P p) ->
+    (forall a p, In p (raw_v_pkgs a) -> P p) ->
+    (forall a p, In p (raw_t_pkgs a) -> P p) ->
+    forall s p, In p (rpkgs_render s) -> P p.
+  Proof.
+    intros P Hl Hv Ht s p Hp. unfold RenderStack.rpkgs_render in Hp.
+    destruct (risnil_of s); [destruct Hp|]. exact (rpkgs_forall P Hl Hv Ht s p Hp).
+  Qed.
 End Regs.
